@@ -89,45 +89,76 @@ func ruleR05aInto(h *H, rule string) {
 			h.Bad(rule, name, h.pos(w.Instr), "a second place increments the term")
 			continue
 		}
-		// all calls in this function that reach the NewTerm RPC
-		var sends []ssa.CallInstruction
-		ir.Instrs(w.Fn, func(in ssa.Instruction) {
-			if ci, ok := in.(ssa.CallInstruction); ok && h.P.CallStaticallyReaches(ci, h.P.MatchPred(rpcNewTerm)) {
-				sends = append(sends, ci)
-			}
-		})
-		if len(sends) == 0 {
-			h.Unknown(rule, name, h.pos(w.Instr), "the incrementing function does not (statically) reach the NewTerm RPC: cannot order the store against it")
-			continue
-		}
-		upds := h.P.CallsIn(w.Fn, updShardMeta)
-		isUpd := func(in ssa.Instruction) bool {
-			for _, u := range upds {
-				if u == in {
-					// the stored metadata must be read after the increment
-					arg := argOf(u.Common(), 2)
-					fresh := ir.DependsOn(arg, func(x ssa.Value) bool {
-						r, ok := ir.FieldLoadOf(x)
-						if !ok || !(r.Field == "shardMetadata") {
-							return false
-						}
-						li, isI := x.(ssa.Instruction)
-						return isI && ir.Dominates(w.Instr, li)
-					})
-					return fresh
+		// Walk up from the increment: the function that holds it may be an extracted helper
+		// ("start a new term") that stores the term itself and is called before the fan-out.
+		cur, at := w.Fn, ssa.Instruction(w.Instr)
+		stored := false
+		decided := false
+		for level := 0; level < 4 && !decided; level++ {
+			var sends []ssa.CallInstruction
+			ir.Instrs(cur, func(in ssa.Instruction) {
+				if ci, ok := in.(ssa.CallInstruction); ok && in != at && h.P.CallStaticallyReaches(ci, h.P.MatchPred(rpcNewTerm)) {
+					sends = append(sends, ci)
 				}
+			})
+			upds := h.P.CallsIn(cur, updShardMeta)
+			anchor := at
+			isUpd := func(in ssa.Instruction) bool {
+				for _, u := range upds {
+					if u == in {
+						// the stored metadata must be read after the increment
+						arg := argOf(u.Common(), 2)
+						return ir.DependsOn(arg, func(x ssa.Value) bool {
+							r, ok := ir.FieldLoadOf(x)
+							if !ok || !(r.Field == "shardMetadata") {
+								return false
+							}
+							li, isI := x.(ssa.Instruction)
+							return isI && li.Parent() == cur && ir.Dominates(anchor, li)
+						})
+					}
+				}
+				return false
 			}
-			return false
-		}
-		ok := true
-		for _, s := range sends {
-			if pass, path := ir.MustPass(w.Fn, w.Instr, s, isUpd); !pass {
-				ok = false
-				h.Bad(rule, name, h.pos(s), "NewTerm can be sent for a term that was not stored first: a path from the increment reaches "+describeCallee(s.Common())+" without UpdateShardMetadata(updated metadata)", witness(path))
+			if len(sends) > 0 {
+				decided = true
+				ok := true
+				for _, s := range sends {
+					if stored {
+						continue
+					}
+					if pass, path := ir.MustPass(cur, at, s, isUpd); !pass {
+						ok = false
+						h.Bad(rule, name, h.pos(s), "NewTerm can be sent for a term that was not stored first: a path from the increment reaches "+describeCallee(s.Common())+" without UpdateShardMetadata(updated metadata)", witness(path))
+					}
+				}
+				if ok {
+					h.OK(rule, name, h.pos(w.Instr), fmt.Sprintf("UpdateShardMetadata precedes all %d NewTerm-sending call(s)", len(sends)))
+				}
+				break
 			}
+			// no fan-out here: does this function store the term on every way out?
+			all := true
+			nret := 0
+			ir.Instrs(cur, func(in ssa.Instruction) {
+				if ret, isRet := in.(*ssa.Return); isRet && in.Block() != cur.Recover {
+					nret++
+					if pass, _ := ir.MustPass(cur, at, ret, isUpd); !pass {
+						all = false
+					}
+				}
+			})
+			if all && nret > 0 {
+				stored = true
+			}
+			site := ir.SingleCallSite(cur)
+			if site == nil {
+				break
+			}
+			cur, at = site.Parent(), site
 		}
-		if ok {
-			h.OK(rule, name, h.pos(w.Instr), fmt.Sprintf("UpdateShardMetadata precedes all %d NewTerm-sending call(s)", len(sends)))
+		if !decided {
+			h.Unknown(rule, name, h.pos(w.Instr), "the incrementing function (and its only callers) do not (statically) reach the NewTerm RPC: cannot order the store against it")
 		}
 	}
 	if n == 0 {
@@ -593,7 +624,7 @@ func inList(s string, l []string) bool {
 
 func ruleR05f(h *H) {
 	const rule = "R05f"
-	h.Rule(rule, "K5", "every insertion into the response map returned by the fencing quorum is guarded by membership of the responder in the ensemble", 2)
+	h.Rule(rule, "K5", "every insertion into the response map returned by the fencing quorum is guarded by membership of the responder in the ensemble", 1)
 	fn := fencingQuorumFn(h, rule)
 	if fn == nil {
 		return
